@@ -39,6 +39,7 @@ type onceState struct {
 	attachCalls     int
 	attachAfterKill bool
 	testMode        bool
+	xlate           bool // the attached runner translates addresses (and the reattach address is given as the plugin sees it)
 }
 
 // onceAttached is the AttachedRunner handed to a reattaching client: it follows the scripted plugin process.
@@ -53,7 +54,12 @@ func (a *onceAttached) Wait(context.Context) error {
 }
 func (a *onceAttached) Kill(context.Context) error                        { a.st.r.exit(); return nil }
 func (a *onceAttached) ID() string                                        { return "attached-1" }
-func (a *onceAttached) PluginToHost(n, ad string) (string, string, error) { return n, ad, nil }
+func (a *onceAttached) PluginToHost(n, ad string) (string, string, error) {
+	if a.st.xlate { // a container-style runner: the plugin's /plugin-view/... is the host's /...
+		return n, strings.Replace(ad, "/plugin-view/", "/", 1), nil
+	}
+	return n, ad, nil
+}
 func (a *onceAttached) HostToPlugin(n, ad string) (string, string, error) { return n, ad, nil }
 
 func newOnce(x *vs.Exec, behaviour string) *onceState {
@@ -63,7 +69,11 @@ func newOnce(x *vs.Exec, behaviour string) *onceState {
 	// "re-<proto>": the client under test reattaches to a running plugin; "tre-<proto>": in test mode
 	// (ReattachConfig.Test, what ServeConfig.Test hands out: Kill must leave the plugin alone)
 	attach := ""
-	if b, ok := strings.CutPrefix(behaviour, "tre-"); ok {
+	if b, ok := strings.CutPrefix(behaviour, "xre-"); ok {
+		// reattach through a runner with a non-identity address translator; the configured address is one that the
+		// translator would change (whether such a client can connect is not this property's matter: Start's answers are)
+		attach, behaviour, st.xlate = b, b, true
+	} else if b, ok := strings.CutPrefix(behaviour, "tre-"); ok {
 		attach, behaviour, st.testMode = b, b, true
 	} else if b, ok := strings.CutPrefix(behaviour, "re-"); ok {
 		attach, behaviour = b, b
@@ -141,8 +151,12 @@ func newOnce(x *vs.Exec, behaviour string) *onceState {
 		}
 		cfg.RunnerFunc = nil
 		cfg.UnixSocketConfig = nil
+		raddr := rc.Addr
+		if ua, ok := raddr.(*net.UnixAddr); ok && st.xlate {
+			raddr = &net.UnixAddr{Net: "unix", Name: "/plugin-view" + ua.Name}
+		}
 		cfg.Reattach = &plugin.ReattachConfig{
-			Protocol: rc.Protocol, ProtocolVersion: 1, Addr: rc.Addr, Pid: 1 << 22, Test: st.testMode,
+			Protocol: rc.Protocol, ProtocolVersion: 1, Addr: raddr, Pid: 1 << 22, Test: st.testMode,
 			ReattachFunc: func() (runner.AttachedRunner, error) {
 				st.attachCalls++
 				if st.killedAfterLaunch { // (a Kill before any attach stops nothing, like a Kill before any launch)
@@ -330,7 +344,7 @@ func init() {
 			}
 			var out []explore.Params
 			var rec func(prefix []string)
-			behs := []string{"netrpc", "grpc", "badline", "badproto", "silent", "rferr", "re-netrpc", "re-grpc", "tre-netrpc", "tre-grpc", "wild4-netrpc", "wild6-grpc", "slow-netrpc", "slow-grpc", "rel-netrpc", "rel-grpc"}
+			behs := []string{"netrpc", "grpc", "badline", "badproto", "silent", "rferr", "re-netrpc", "re-grpc", "tre-netrpc", "tre-grpc", "wild4-netrpc", "wild6-grpc", "slow-netrpc", "slow-grpc", "rel-netrpc", "rel-grpc", "xre-netrpc", "xre-grpc"}
 			rec = func(prefix []string) {
 				if len(prefix) > 0 {
 					for _, b := range behs {
